@@ -77,7 +77,9 @@ JudgeRun(ps, cs, inp, dev) ==
   LET dp == ps.dp
       bp == ps.bp
       sd == Run(dp, "decb", St0(inp, dev), cs.fuel)
-      sb == Run(bp, "b09", Load(bp.code, St0(inp, dev)), 4 * cs.fuel + 200)
+      \* cs.cut (optional): the strings of the case fit the requested string size, so BASIC09's rule -- a string is cut to
+      \* the declared size of the variable it is stored in -- is applied instead of leaving longer strings unjudged
+      sb == Run(bp, "b09", Load(bp.code, [St0(inp, dev) EXCEPT !.cut = IF "cut" \in DOMAIN cs THEN cs.cut ELSE FALSE]), 4 * cs.fuel + 200)
       sobs == Canon(sd.obs)
       tobs == Canon(sb.obs)
       k == FirstDiff(sobs, tobs, ObAgree)
